@@ -386,9 +386,48 @@ def run_ioapi_in(spec, res, d, h):
                 problems.append('synthesised time_bounds decode to %s/%s, '
                                 'expected %s/%s' % (lo[:2], hi[:2], eb[:2],
                                                     eb[1:3]))
+            # the file is re-dated (same number of steps) and the CF
+            # coordinates are synthesised again: they must follow
+            if not problems and fs['tstep'] < 240000 * 30:
+                nd, ntm = gen_ioapi.jd_add(fs['sdate'], fs['stime'],
+                                           86400 * 37 + 3600)
+                fs2 = dict(fs, sdate=nd, stime=ntm)
+                f.SDATE, f.STIME = nd, ntm
+                if 'TFLAG' in f.variables:
+                    tfv = f.variables['TFLAG']
+                    for i in range(fs['nt']):
+                        di, ti = gen_ioapi.jd_add(nd, ntm, i * dtsec)
+                        tfv[i, :, 0] = di
+                        tfv[i, :, 1] = ti
+                add_time_variables(f)
+                res.hook('add_time_variable.return')
+                exp2 = gen_ioapi.expected_times(fs2)
+                lt2 = [as_utc_tuple(t)[:6] for t in f.getTimes()]
+                res.hook('getTimes.return')
+                if lt2 != exp2:
+                    problems.append('after re-dating the file and '
+                                    'synthesising the CF time again, '
+                                    'getTimes() = %s, the flags say %s'
+                                    % (lt2[:3], exp2[:3]))
         except Exception as e:
             res.hook('add_time_variable.return')
             problems.append('add_time_variables raised %r' % (e,))
+    if spec['mode'] == 'tflag' and not spec['drop_tflag'] and \
+            fs['nt'] >= 3 and not problems and not spec.get('disk'):
+        # unevenly spaced flags (an index-list selection): the edges are the
+        # decoded flags plus one closing edge, not a regular sequence
+        try:
+            keep = [0, 1] + [fs['nt'] - 1] if fs['nt'] > 3 else [0, 2]
+            g = f.sliceDimensions(TSTEP=keep)
+            gb = [as_utc_tuple(t)[:6] for t in g.getTimes(bounds=True)]
+            res.hook('getTimes.return')
+            want = [exp[i] for i in keep]
+            if gb[:-1] != want:
+                problems.append('steps %s selected: getTimes(bounds=True)'
+                                '[:-1] = %s, the selected flags say %s'
+                                % (keep, gb[:-1][:4], want[:4]))
+        except Exception as e:
+            res.note('irregular-selection-raised:%s' % type(e).__name__)
     res.ev(dg, True, facets)
     if problems:
         res.viol('wrong-instant:ioapi:' + spec['mode'],
